@@ -244,14 +244,45 @@ def m_abs(ctx, args, kw):
     return NotImplemented
 
 
-@model(np.max, np.amax, _b.max, np.maximum)
+@model(_b.max, np.maximum)
 def m_max(ctx, args, kw):
     return _minmax(ctx, args, kw, True)
 
 
-@model(np.min, np.amin, _b.min, np.minimum)
+@model(_b.min, np.minimum)
 def m_min(ctx, args, kw):
     return _minmax(ctx, args, kw, False)
+
+
+def _flatten(ctx, v):
+    """all scalar elements of a (nested) list / array, as numpy's reductions without an axis see them"""
+    if isinstance(v, Ref) and isinstance(ctx.cell(v), HList) and ctx.cell(v).items is not None:
+        out = []
+        for x in ctx.cell(v).items:
+            out += _flatten(ctx, x)
+        return out
+    if isinstance(v, (list, tuple)):
+        out = []
+        for x in v:
+            out += _flatten(ctx, x)
+        return out
+    if isinstance(v, np.ndarray):
+        return [x for x in v.flatten().tolist()]
+    return [v]
+
+
+@model(np.max, np.amax)
+def m_npmax(ctx, args, kw):
+    if len(args) == 1 and not kw and any(isinstance(x, Sym) for x in _flatten(ctx, args[0])):
+        return _minmax(ctx, [ctx.new_list(_flatten(ctx, args[0]))], {}, True)
+    return _minmax(ctx, args, kw, True) if (len(args) != 1 or not isinstance(args[0], Ref)) else NotImplemented if not any(isinstance(x, Sym) for x in _flatten(ctx, args[0])) else NotImplemented
+
+
+@model(np.min, np.amin)
+def m_npmin(ctx, args, kw):
+    if len(args) == 1 and not kw and any(isinstance(x, Sym) for x in _flatten(ctx, args[0])):
+        return _minmax(ctx, [ctx.new_list(_flatten(ctx, args[0]))], {}, False)
+    return _minmax(ctx, args, kw, False) if (len(args) != 1 or not isinstance(args[0], Ref)) else NotImplemented
 
 
 def _minmax(ctx, args, kw, is_max):
@@ -934,6 +965,16 @@ def m_remove(ctx, args, kw):
     if args and _vfs_path(args[0]):
         return ctx.call(_vfs(ctx, "remove"), list(args), {})
     return NotImplemented
+
+
+@model(np.seterr)
+def m_seterr(ctx, args, kw):
+    return ctx.call(ctx.world.model_module("npstate").globals["seterr"], list(args), dict(kw))
+
+
+@model(np.geterr)
+def m_geterr(ctx, args, kw):
+    return ctx.call(ctx.world.model_module("npstate").globals["geterr"], [], {})
 
 
 def bi_round(ctx, args, kw):
